@@ -451,6 +451,40 @@ def l_exists(layer, comps, tr):
     return l_is_file(layer, comps, tr) or l_is_dir(layer, comps, tr)
 
 
+# The pattern ARGUMENTS the model covers (Model/LayeredFS.v: glob_special / plain_pattern_arg / wf_pattern): glob interprets the
+# caller's pattern, the model reads <ext> / <name> literally, so only arguments free of these characters are generated
+# (review r4, C13-1).  Names of directories and files in the layers are NOT restricted (DIR_NAMES / FILE_NAMES below).
+GLOB_SPECIAL = "*?[]{}\\/"
+
+
+def _coq_glob_special():
+    import re
+    src = open(os.path.join(os.path.dirname(os.path.abspath(__file__)), "..", "coq", "Model", "LayeredFS.v"), encoding="utf-8").read()
+    m = re.search(r"Definition glob_special : list N := \[([0-9; ]*)\]", src)
+    return [int(x) for x in m.group(1).split(";")] if m else None
+
+
+assert _coq_glob_special() == [ord(c) for c in GLOB_SPECIAL], "gen/fsgen.py GLOB_SPECIAL differs from Model/LayeredFS.v glob_special"
+
+
+def plain_pattern_arg(s):
+    """= LayeredFS.plain_pattern_arg"""
+    return not any(ch in GLOB_SPECIAL for ch in s)
+
+
+def wf_pattern(pat):
+    """= LayeredFS.wf_pattern on a pattern token"""
+    k = pat[:2]
+    arg = unL(pat[2:]) if len(pat) > 2 else ""
+    if k in ("PA", "PX", "PS"):
+        return True
+    if k in ("PE", "PR"):
+        return plain_pattern_arg(arg)
+    if k == "PD":
+        return arg not in ("", ".", "..") and plain_pattern_arg(arg)
+    raise ValueError(pat)
+
+
 def pat_matches(pat, rel):
     """pattern token, rel = components below the listed directory (non-empty)."""
     k = pat[:2]
@@ -677,10 +711,14 @@ def check_history(c, impl_out):
 
 
 # ----------------------------------------------------------------------------- random cases
-DIR_NAMES = ["d", "m", "sub", ".hid", "sp ace", "日本", "x.lz", "E", "@E", "a[b]", "q?", "st*r", "d.cmp"]
+DIR_NAMES = ["d", "m", "sub", ".hid", "sp ace", "日本", "x.lz", "E", "@E", "a[b]", "q?", "st*r", "d.cmp", "c{d}", "[!a]"]
 FILE_NAMES = ["a.bin", "b.txt", "c.bin.lz", "g.cmp", "h.cms", ".lz", ".txt", "n", "lz", "t.txt", "e_a.bin", "s_g.cmp",
-              "z.lz", "k.cmp", "é.bin", "w x.txt", "a.b.txt", "cmp", ".cms", "a]", "b[1].txt", "u.lz.bak"]
-EXTS = ["txt", "bin", "lz", "cmp", "b.txt", "bin.lz"]
+              "z.lz", "k.cmp", "é.bin", "w x.txt", "a.b.txt", "cmp", ".cms", "a]", "b[1].txt", "u.lz.bak",
+              "{x}.txt", "*.txt", "?.bin", "p.t!", "r.b-c", "v.é"]
+# pattern arguments: all satisfy plain_pattern_arg (asserted below); some with characters that are NOT excluded ('!' '-' '.' ' ' non-ASCII)
+EXTS = ["txt", "bin", "lz", "cmp", "b.txt", "bin.lz", "t!", "b-c", "é", "x.txt"]
+SUB_NAMES = ["sp ace", ".hid", "日本", "x.lz", "@E", "d.cmp"]
+assert all(plain_pattern_arg(x) for x in EXTS + SUB_NAMES)
 
 
 def payload_pool(rng, tier):
@@ -885,8 +923,9 @@ def gen_case(rng, tier, game, lang, focus, pool, codec=CODEC):
             elif r < 0.9:
                 pat = "PR" + L(rng.choice(EXTS))
             else:
-                names = DIR_NAMES[:8] + [q.rstrip("/").split("/")[-1] for q in files[:3]]
-                pat = "PD" + L(rng.choice([x for x in names if x and not any(ch in x for ch in "[]?*")]))
+                names = DIR_NAMES[:8] + SUB_NAMES + [q.rstrip("/").split("/")[-1] for q in files[:3]]
+                pat = "PD" + L(rng.choice([x for x in names if wf_pattern("PD" + L(x))]))
+            assert wf_pattern(pat), pat      # the generator's restriction IS the model's predicate
             ops.append(("L", loc, p, pat))
         else:
             ops.append((k, loc, p))
